@@ -57,7 +57,8 @@ def _member_profile(tape, d, faulty, all_fail=False):
     delay = tape.choice([0.0, d, d, d + 1e-6, 10 * d, d], "delay")
     pf = {"check_delay": delay, "latency": tape.choice([0.0, 0.0, 1e-4], "latency"),
           "short_reads": tape.chance(1, 3, "short_reads"),
-          "model_policy": tape.choice(["uniform", "first", "last"], "model_policy")}
+          "model_policy": tape.choice(["uniform", "first", "last"], "model_policy"),
+          "value_delay": tape.choice([0.0, 0.0, 0.0, 6.5, 40.0], "value_delay")}
     if faulty and tape.chance(1, 8, "member.dies_after_answer"):
         # the statement promises no value from a survivor that died; the call must still not block forever
         pf["die_before_name"] = ["get-value", 1]
@@ -173,10 +174,10 @@ def shrink_plan(plan):
                 return dict(plan, profiles=ps)
             if pf.get("fault"):
                 yield repp({k: v for k, v in pf.items()
-                            if k in ("check_delay", "latency", "short_reads", "model_policy")
+                            if k in ("check_delay", "latency", "short_reads", "model_policy", "value_delay")
                             and not (k == "check_delay" and v == float("inf"))})
             for key, simple in (("short_reads", False), ("latency", 0.0), ("check_delay", 0.0),
-                                ("model_policy", "first")):
+                                ("model_policy", "first"), ("value_delay", 0.0)):
                 if pf.get(key, simple) != simple and not (key == "check_delay" and pf.get("fault") == "stall"):
                     yield repp(dict(pf, **{key: simple}))
     for i, o in enumerate(plan["ops"]):
